@@ -234,8 +234,8 @@ class Txn(Interp):
         self.rets.append((s, st.copy(), ret_class(s, st)))
 
 
-def r2_pairing(ctx, prog):
-    r = ctx.rule('C09.R2', 'every opened transaction is committed or aborted before the function returns; nothing is stored after an abort', floor=18, engine='E3')
+def r2_pairing(ctx, prog, rule_id='C09.R2'):
+    r = ctx.rule(rule_id, 'every opened transaction is committed or aborted before the function returns; nothing is stored after an abort', floor=18, engine='E3')
     for f in sorted(prog.functions.values(), key=lambda f: (f['file'], f['line'])):
         if not (f['file'].endswith('SoftHSM.cpp') or f['file'].endswith('P11Objects.cpp') or f['file'].endswith('P11Attributes.cpp')):
             continue
